@@ -52,6 +52,18 @@ class _Expr(ast.NodeTransformer):
         if isinstance(node.func, ast.Name) and node.func.id == 'getattr' and len(node.args) == 2 and not node.keywords \
                 and isinstance(node.args[1], ast.Constant) and isinstance(node.args[1].value, str) and node.args[1].value.isidentifier():
             return ast.copy_location(ast.Attribute(value=node.args[0], attr=node.args[1].value, ctx=ast.Load()), node)
+        # C22: islice(x, a, b) over an attribute / name -> x[a:b] (what a loop over it sees)
+        fn = node.func
+        if ((isinstance(fn, ast.Name) and fn.id == 'islice') or (isinstance(fn, ast.Attribute) and fn.attr == 'islice'
+                                                                  and isinstance(fn.value, ast.Name) and fn.value.id == 'itertools')) \
+                and 2 <= len(node.args) <= 3 and not node.keywords and _chain_text(node.args[0]) is not None:
+            if len(node.args) == 2:
+                lo, hi = None, node.args[1]
+            else:
+                lo, hi = node.args[1], node.args[2]
+            none = lambda e: e is None or (isinstance(e, ast.Constant) and e.value is None)
+            sl = ast.Slice(lower=None if none(lo) else lo, upper=None if none(hi) else hi, step=None)
+            return ast.copy_location(ast.Subscript(value=node.args[0], slice=sl, ctx=ast.Load()), node)
         # C13: x.startswith(('a', 'b')) -> x.startswith('a') or x.startswith('b')   (x a plain name / attribute chain)
         f = node.func
         if isinstance(f, ast.Attribute) and f.attr in ('startswith', 'endswith') and len(node.args) == 1 and not node.keywords \
@@ -66,6 +78,12 @@ class _Expr(ast.NodeTransformer):
 
     def visit_Compare(self, node):
         self.generic_visit(node)
+        # C18: identity of two names that denote classes of the package (after a helper with a class parameter was inlined)
+        if len(node.ops) == 1 and isinstance(node.ops[0], (ast.Is, ast.IsNot)) and isinstance(node.left, ast.Name) \
+                and isinstance(node.comparators[0], ast.Name):
+            a, b = node.left.id, node.comparators[0].id
+            if a in _KNOWN_CLASSES and b in _KNOWN_CLASSES:
+                return ast.copy_location(ast.Constant(value=(a == b) == isinstance(node.ops[0], ast.Is)), node)
         if len(node.ops) == 1 and isinstance(node.ops[0], (ast.In, ast.NotIn)) and isinstance(node.comparators[0], ast.List):
             c = node.comparators[0]
             node.comparators = [ast.copy_location(ast.Tuple(elts=c.elts, ctx=ast.Load()), c)]
@@ -116,6 +134,8 @@ class _Expr(ast.NodeTransformer):
         """C11: `a if X is X else b` -> a (a trivially decided test left behind by inlining a parametrised helper)."""
         self.generic_visit(node)
         t = node.test
+        if isinstance(t, ast.Constant) and isinstance(t.value, bool):
+            return node.body if t.value else node.orelse
         if isinstance(t, ast.Compare) and len(t.ops) == 1 and isinstance(t.left, ast.Name) and isinstance(t.comparators[0], ast.Name) \
                 and t.left.id == t.comparators[0].id:
             if isinstance(t.ops[0], (ast.Is, ast.Eq)):
@@ -216,6 +236,51 @@ def _splittable(s):
     return True
 
 
+_GEN_COUNTER = [0]
+
+
+def _lower_next(s):
+    if not (isinstance(s, ast.Assign) and len(s.targets) == 1 and isinstance(s.targets[0], ast.Name)):
+        return None
+    v = s.value
+    if not (isinstance(v, ast.Call) and isinstance(v.func, ast.Name) and v.func.id == 'next' and len(v.args) == 2
+            and not v.keywords and isinstance(v.args[0], ast.GeneratorExp) and len(v.args[0].generators) == 1):
+        return None
+    g = v.args[0]
+    comp = g.generators[0]
+    if comp.is_async:
+        return None
+    default = v.args[1]
+    if not isinstance(default, (ast.Name, ast.Constant, ast.Attribute)):
+        return None
+    # the generator's variables live in their own scope: give them names of their own
+    import copy
+    _GEN_COUNTER[0] += 1
+    names = {x.id for x in ast.walk(comp.target) if isinstance(x, ast.Name)}
+    ren = {n: '%s__g%d' % (n, _GEN_COUNTER[0]) for n in names}
+
+    class R(ast.NodeTransformer):
+        def visit_Name(self, node):
+            if node.id in ren:
+                return ast.copy_location(ast.Name(id=ren[node.id], ctx=node.ctx), node)
+            return node
+    target = R().visit(copy.deepcopy(comp.target))
+    elt = R().visit(copy.deepcopy(g.elt))
+    conds = [R().visit(copy.deepcopy(c)) for c in comp.ifs]
+    assign = ast.copy_location(ast.Assign(targets=[ast.Name(id=s.targets[0].id, ctx=ast.Store())], value=elt,
+                                          lineno=s.lineno, col_offset=s.col_offset), s)
+    brk = ast.copy_location(ast.Break(), s)
+    body = [assign, brk]
+    if conds:
+        test = conds[0] if len(conds) == 1 else ast.BoolOp(op=ast.And(), values=conds)
+        body = [ast.copy_location(ast.If(test=test, body=body, orelse=[]), s)]
+    els = [ast.copy_location(ast.Assign(targets=[ast.Name(id=s.targets[0].id, ctx=ast.Store())], value=default,
+                                        lineno=s.lineno, col_offset=s.col_offset), s)]
+    loop = ast.copy_location(ast.For(target=target, iter=comp.iter, body=body, orelse=els, type_comment=None), s)
+    ast.fix_missing_locations(loop)
+    return [loop]
+
+
 def _count_loop_ok(loop):
     """no `continue` belonging to this loop and no store to the counter in the body."""
     def scan(stmts):
@@ -313,6 +378,21 @@ def _canon_block(stmts):
             else:
                 s = ast.copy_location(ast.Assign(targets=[s.target], value=s.value, lineno=s.lineno, col_offset=s.col_offset), s)
         _hoist_walrus(s, out)
+        # C19: `v = next((E for T in IT if C), D)` -> first-match loop with else
+        lowered = _lower_next(s)
+        if lowered is not None:
+            out.extend(_canon_block(lowered))
+            continue
+        # C20: `x = a if c else b` / `return a if c else b` -> if statement
+        if isinstance(s, (ast.Assign, ast.Return, ast.AugAssign)) and isinstance(getattr(s, 'value', None), ast.IfExp) \
+                and not (isinstance(s, ast.Assign) and any(isinstance(t, (ast.Subscript,)) for t in s.targets)):
+            import copy as _copy
+            ie = s.value
+            a, b = _copy.copy(s), _copy.copy(s)
+            a.value, b.value = ie.body, ie.orelse
+            node = ast.copy_location(ast.If(test=ie.test, body=[a], orelse=[b]), s)
+            out.extend(_canon_block([node]))
+            continue
         # C17: `for i in itertools.count(a): [if c: break]; body`  ->  `i = a; while [not c / True]: body; i += 1`
         if isinstance(s, ast.For) and not s.orelse and isinstance(s.target, ast.Name) and isinstance(s.iter, ast.Call) \
                 and ((isinstance(s.iter.func, ast.Attribute) and s.iter.func.attr == 'count' and isinstance(s.iter.func.value, ast.Name)
@@ -378,6 +458,34 @@ def _canon_block(stmts):
         out.append(s)
     if stmts and not out:
         out.append(ast.copy_location(ast.Pass(), stmts[0]))
+    return _tail_duplicate(out)
+
+
+def _tail_duplicate(stmts):
+    """C21: `if c: ...; b = E1  else: ...; b = E2` followed by an `if` whose test reads b: the second `if` is copied to the end
+    of both branches, so that in each copy b has one definition (the hoisted-boolean idiom written back)."""
+    import copy
+    out = []
+    i = 0
+    while i < len(stmts):
+        s = stmts[i]
+        nxt = stmts[i + 1] if i + 1 < len(stmts) else None
+        if isinstance(s, ast.If) and s.body and s.orelse and isinstance(nxt, ast.If) \
+                and isinstance(s.body[-1], ast.Assign) and isinstance(s.orelse[-1], ast.Assign) \
+                and len(s.body[-1].targets) == 1 and isinstance(s.body[-1].targets[0], ast.Name) \
+                and len(s.orelse[-1].targets) == 1 and isinstance(s.orelse[-1].targets[0], ast.Name) \
+                and s.body[-1].targets[0].id == s.orelse[-1].targets[0].id:
+            b = s.body[-1].targets[0].id
+            reads = any(isinstance(x, ast.Name) and x.id == b for x in ast.walk(nxt.test))
+            size = sum(1 for _ in ast.walk(nxt))
+            if reads and size <= 80:
+                s.body = s.body + [copy.deepcopy(nxt)]
+                s.orelse = s.orelse + [copy.deepcopy(nxt)]
+                out.append(s)
+                i += 2
+                continue
+        out.append(s)
+        i += 1
     return out
 
 
@@ -389,8 +497,26 @@ def canon_function(fdef):
     return fdef
 
 
+_KNOWN_CLASSES = set()
+
+
 def canon_modules(modules):
     n = 0
+    _KNOWN_CLASSES.clear()
+    for m in modules.values():
+        for node in ast.walk(m.tree):
+            if isinstance(node, ast.ClassDef):
+                _KNOWN_CLASSES.add(node.name)
+    # a class name that is also bound as a variable somewhere is not a reliable constant
+    for m in modules.values():
+        for fn in ast.walk(m.tree):
+            if not isinstance(fn, (ast.FunctionDef, ast.AsyncFunctionDef, ast.Lambda)):
+                continue
+            for node in ast.walk(fn):
+                if isinstance(node, ast.Name) and isinstance(node.ctx, ast.Store) and node.id in _KNOWN_CLASSES:
+                    _KNOWN_CLASSES.discard(node.id)
+                if isinstance(node, ast.arg) and node.arg in _KNOWN_CLASSES:
+                    _KNOWN_CLASSES.discard(node.arg)
     for m in modules.values():
         for node in ast.walk(m.tree):
             if isinstance(node, (ast.FunctionDef, ast.AsyncFunctionDef)):
